@@ -725,7 +725,9 @@ func getTransportDialTLS(t *http.Transport) func(network, addr string) (net.Conn
 		if tlsClientConfig == nil {
 			tlsClientConfig = &tls.Config{}
 		}
-		if !tlsClientConfig.InsecureSkipVerify && tlsClientConfig.ServerName == "" {
+		// (also without verification: the backend picks its certificate and
+		// its site by the name, as it does for the requests that are not upgrades)
+		if tlsClientConfig.ServerName == "" {
 			tlsClientConfig.ServerName = stripPort(addr)
 		}
 
